@@ -118,17 +118,18 @@ def run(chk, replay=None):
         return
 
     tables = RATE_TABLES[:3] if quick else RATE_TABLES
+    vary = random.Random(chk.seed * 7919 + 16)     # pseudo-random choices (TLC emits cases in a regular order)
     nbad = 0
     ok_cases = set()
     for ci, case in enumerate(cases):
         w = case['w']
         if any(i == 0 for r in case['rid'] for i in r) or sum(map(sum, w)) == 0:
             chk.nontrivial('%s|%s|%s' % (case['kind'], case['rid'], w))
-        for ti, table in enumerate(tables if not quick else [tables[ci % 3]]):
-            mult = 1 + (ci + ti) % 3
+        for ti, table in enumerate(tables if not quick else [vary.choice(tables)]):
+            mult = 1 + vary.randrange(3)
             if mult > 1:
                 chk.nontrivial('%s|%s|%s|m%d' % (case['kind'], case['rid'], w, mult))
-            lay, clay = [('C', 'C'), ('F', 'C'), ('T', 'C'), ('C', 'F'), ('F', 'F')][(ci + ti) % 5]
+            lay, clay = vary.choice([('C', 'C'), ('F', 'C'), ('T', 'C'), ('C', 'F'), ('F', 'F')])
             bad = check_case(case, table, mult, lay, clay)
             if not bad:
                 ok_cases.add(ci)
